@@ -660,11 +660,16 @@ func tryReplay(E *Engine, o *Obligation, rep map[string]interface{}, root, scrat
 			continue
 		}
 		n, ok := smtInt(vals[base+2*i], true, 64)
-		if !ok || n.Sign() < 0 || n.Cmp(big.NewInt(4096)) > 0 {
+		if !ok || n.Sign() < 0 || n.Cmp(big.NewInt(1<<22)) > 0 {
 			rep["replay_note"] = fmt.Sprintf("slice %s has length %s in the model (not materialised)", s.GoPath, vals[base+2*i])
 			return false
 		}
 		ln := int(n.Int64())
+		if ln > 256 {
+			// a long slice in the model is almost always one the clause does not depend on: right length, zero elements
+			sls = append(sls, sl{-ln, false})
+			continue
+		}
 		sls = append(sls, sl{ln, vals[base+2*i+1] == "true"})
 		for k := 0; k < ln; k++ {
 			elemTerms = append(elemTerms, fmt.Sprintf("(select (s_arr %s) %d)", s.Term, k))
@@ -679,6 +684,12 @@ func tryReplay(E *Engine, o *Obligation, rep map[string]interface{}, root, scrat
 	for i, s := range ri.Slices {
 		if sls[i].nil && sls[i].n == 0 {
 			inputs[s.GoPath] = "nil"
+			continue
+		}
+		if sls[i].n < 0 {
+			lit := fmt.Sprintf("make([]%s, %d)", s.ElemType, -sls[i].n)
+			assigns = append(assigns, fmt.Sprintf("%s = %s", s.GoPath, lit))
+			inputs[s.GoPath] = lit + " (elements not read from the model)"
 			continue
 		}
 		var es []string
